@@ -31,6 +31,15 @@ def main():
     meta = {"property": pid, "tag": tag, "confirmed": False, "steps": {}, "repo_head": sh(["git", "-C", "/repo", "rev-parse", "--short", "HEAD"])[1].strip()}
     try:
         rc, out = sh(["git", "apply", "--whitespace=nowarn", os.path.abspath(patch)], cwd=wt)
+        if rc != 0:
+            # the patch was written against an older main: three-way merge, then keep the merged result as the patch
+            rc, out = sh(["git", "apply", "--3way", "--whitespace=nowarn", os.path.abspath(patch)], cwd=wt)
+            if rc == 0:
+                sh(["git", "reset", "-q"], cwd=wt)
+                rc2, merged = sh(["git", "diff"], cwd=wt)
+                patch = os.path.join("/tmp/seedchk", "%s-%s.rebased.diff" % (pid, tag))
+                open(patch, "w").write(merged)
+                meta["steps"]["rebased_by_3way"] = True
         meta["steps"]["apply"] = rc == 0
         if rc != 0:
             meta["steps"]["apply_log"] = out[-800:]
